@@ -8,7 +8,9 @@ git -C $WT checkout -q --detach $(git -C /repo rev-parse HEAD) || exit 2
 git -C $WT checkout -q -- . 
 git -C $WT apply "$PATCH" 2>/dev/null || git -C $WT apply -3 "$PATCH" || { echo "PATCH DOES NOT APPLY"; exit 2; }; git -C $WT reset -q
 cd /verif
+cp -f evidence/$PROP.json /tmp/trial.evidence.$PROP.json 2>/dev/null
 VERIF_REPO=$WT VERIF_KEEP= ./vcheck $PROP --tier $TIER > /tmp/trial.out 2>&1; rc=$?
 git -C $WT checkout -q -- .
+cp -f /tmp/trial.evidence.$PROP.json evidence/$PROP.json 2>/dev/null   # evidence files only ever come from runs against /repo itself
 grep -E "^VIOLATION|^KNOWN|HARNESS|quick seed|thorough seed" /tmp/trial.out | grep -v "^KNOWN" | cut -c1-300 | head -12
 echo "exit=$rc"
